@@ -853,3 +853,27 @@ var concProp = h.Define(P, "concurrent", func(t *rapid.T) ConcCase {
 func TestConcurrent(t *testing.T) { concProp.Check(t) }
 
 var _ = io.Discard
+
+// TestConcurrentHeavy: fixed histories in which one unusually large (but legal) check - a list argument of tens of
+// thousands of elements under a quantifier - overlaps with ordinary ones on the same tokens. Alone every check
+// passes; it passes just the same in company. (The random histories draw such a case only now and then.)
+func TestConcurrentHeavy(t *testing.T) {
+	zero := val.Int(0)
+	for _, n := range []int{34000, 40000, 70000} {
+		big := val.V{K: "list"}
+		for i := 0; i < n; i++ {
+			big.L = append(big.L, val.Int(int64(i%5)))
+		}
+		q := pol.Stmt{Op: "all", Sel: sel.Sel{{Kind: "field", Name: "big"}}, Sub: []pol.Stmt{{Op: ">=", Sel: sel.Sel{{Kind: "id"}}, Lit: &zero}}}
+		args := []val.KV{{K: "a", V: val.Int(1)}, {K: "big", V: big}}
+		cs := chain.Case{Links: []chain.Link{{Iss: 1, Aud: 2, Sub: 0, Cmd: "/", Pol: pol.Policy{q}}, {Iss: 0, Aud: 1, Sub: 0, Cmd: "/"}},
+			Inv: chain.Inv{Iss: 2, Sub: 0, Aud: -1, Cmd: "/x", NonceLen: 12, Args: args}}
+		var hists [][]Step
+		for g := 0; g < 6; g++ {
+			hists = append(hists, []Step{{Op: "ExecutionAllowed"}, {Op: "ExecutionAllowedWithArgsHook"}, {Op: "dlg.Policy.Match", Which: g % 2}, {Op: "ExecutionAllowed/alt-args"}, {Op: "ExecutionAllowed"}})
+		}
+		for rep := 0; rep < 3; rep++ {
+			concProp.One(t, ConcCase{Chain: cs, Alt: args, Hists: hists})
+		}
+	}
+}
